@@ -467,3 +467,52 @@ package sam
 //@   inline
 //@ func Reference.ID
 //@   inline
+
+// Header.Clone (C07): the copy satisfies the identity invariant on its own:
+// its items are new objects owned by the copy, with the ids and names of the
+// originals, and its name tables are copies of the original tables.
+//@ spec func tabSub(ct set, bt set) bool = forall s string :: has(ct, s) ==> (has(bt, s) && ct[s] == bt[s])
+//@ spec func tabAll(ct set, bt set) bool = forall s string :: has(bt, s) ==> (has(ct, s) && ct[s] == bt[s])
+//@ spec func tabEmpty(ct set) bool = forall s string :: !has(ct, s)
+//@ spec func cloneShape(c *Header, bh *Header) bool = c != nil && c != bh && c.seenRefs != nil && c.seenGroups != nil && c.seenProgs != nil &&
+//@     c.seenRefs != c.seenGroups && c.seenRefs != c.seenProgs && c.seenGroups != c.seenProgs &&
+//@     c.seenRefs != bh.seenRefs && c.seenGroups != bh.seenGroups && c.seenProgs != bh.seenProgs &&
+//@     len(c.refs) == len(bh.refs) && len(c.rgs) == len(bh.rgs) && len(c.progs) == len(bh.progs)
+//@ spec func refsCopied(c *Header, bh *Header, n int) bool = forall k in 0..n ::
+//@     (c.refs[k] != nil && int(c.refs[k].id) == k && c.refs[k].owner == c && c.refs[k].name == bh.refs[k].name)
+//@ spec func rgsCopied(c *Header, bh *Header, n int) bool = forall k in 0..n ::
+//@     (c.rgs[k] != nil && int(c.rgs[k].id) == k && c.rgs[k].owner == c && c.rgs[k].name == bh.rgs[k].name)
+//@ spec func progsCopied(c *Header, bh *Header, n int) bool = forall k in 0..n ::
+//@     (c.progs[k] != nil && int(c.progs[k].id) == k && c.progs[k].owner == c && c.progs[k].uid == bh.progs[k].uid)
+//@ func Header.Clone
+//@   mode int
+//@   props C07
+//@   requires bh != nil && len(bh.refs) <= 1000000 && len(bh.rgs) <= 1000000 && len(bh.progs) <= 1000000
+//@   requires refsA(bh) && refsB(bh) && refsC(bh) && rgsA(bh) && rgsB(bh) && rgsC(bh) && progsA(bh) && progsB(bh) && progsC(bh)
+//@   loop 0 invariant @l0 fresh(c) && cloneShape(c, bh) && tabEmpty(c.seenRefs) && tabEmpty(c.seenGroups) && tabEmpty(c.seenProgs) &&
+//@       refsCopied(c, bh, rangeindex + 1) && (forall k in 0..rangeindex + 1 :: fresh(c.refs[k]))
+//@   loop 1 invariant @l1 fresh(c) && cloneShape(c, bh) && tabEmpty(c.seenRefs) && tabEmpty(c.seenGroups) && tabEmpty(c.seenProgs) &&
+//@       refsCopied(c, bh, len(bh.refs)) && rgsCopied(c, bh, rangeindex + 1) && (forall k in 0..rangeindex + 1 :: fresh(c.rgs[k]))
+//@   loop 2 invariant @l2 fresh(c) && cloneShape(c, bh) && tabEmpty(c.seenRefs) && tabEmpty(c.seenGroups) && tabEmpty(c.seenProgs) &&
+//@       refsCopied(c, bh, len(bh.refs)) && rgsCopied(c, bh, len(bh.rgs)) && progsCopied(c, bh, rangeindex + 1) && (forall k in 0..rangeindex + 1 :: fresh(c.progs[k]))
+//@   loop 3 invariant @l3 fresh(c) && cloneShape(c, bh) && tabEmpty(c.seenGroups) && tabEmpty(c.seenProgs) &&
+//@       refsCopied(c, bh, len(bh.refs)) && rgsCopied(c, bh, len(bh.rgs)) && progsCopied(c, bh, len(bh.progs)) &&
+//@       tabSub(c.seenRefs, bh.seenRefs) && (forall s string :: visited(3, s) ==> has(c.seenRefs, s))
+//@   loop 4 invariant @l4 fresh(c) && cloneShape(c, bh) && tabEmpty(c.seenProgs) &&
+//@       refsCopied(c, bh, len(bh.refs)) && rgsCopied(c, bh, len(bh.rgs)) && progsCopied(c, bh, len(bh.progs)) &&
+//@       tabSub(c.seenRefs, bh.seenRefs) && tabAll(c.seenRefs, bh.seenRefs) &&
+//@       tabSub(c.seenGroups, bh.seenGroups) && (forall s string :: visited(4, s) ==> has(c.seenGroups, s))
+//@   loop 5 invariant @l5 fresh(c) && cloneShape(c, bh) &&
+//@       refsCopied(c, bh, len(bh.refs)) && rgsCopied(c, bh, len(bh.rgs)) && progsCopied(c, bh, len(bh.progs)) &&
+//@       tabSub(c.seenRefs, bh.seenRefs) && tabAll(c.seenRefs, bh.seenRefs) &&
+//@       tabSub(c.seenGroups, bh.seenGroups) && tabAll(c.seenGroups, bh.seenGroups) &&
+//@       tabSub(c.seenProgs, bh.seenProgs) && (forall s string :: visited(5, s) ==> has(c.seenProgs, s))
+//@   ensures[C07] @refsA refsA(result)
+//@   ensures[C07] @refsB refsB(result)
+//@   ensures[C07] @refsC refsC(result)
+//@   ensures[C07] @rgsA rgsA(result)
+//@   ensures[C07] @rgsB rgsB(result)
+//@   ensures[C07] @rgsC rgsC(result)
+//@   ensures[C07] @progsA progsA(result)
+//@   ensures[C07] @progsB progsB(result)
+//@   ensures[C07] @progsC progsC(result)
